@@ -21,8 +21,8 @@ NSHARDS = {"quick": 64, "thorough": 128}
 BUDGET_S = {"quick": 240, "thorough": 2400}
 EXTRA_BUILDS = {"thorough": ["rel", "asan"]}
 MIN_HITS = {
-    "quick": {"program": 130000, "allbytes": 1200, "random_tokens": 3000, "constructed": 1500, "tx_bound": 800, "lib_err": 20000, "lib_ok": 50000, "post_error_state_checked": 20000, "step_vs_run": 100000},
-    "thorough": {"program": 500000, "allbytes": 1200, "random_tokens": 250000, "constructed": 40000, "tx_bound": 20000, "lib_err": 100000, "lib_ok": 100000, "step_vs_run": 300000},
+    'quick': {"program": 130000, "allbytes": 1200, "random_tokens": 3000, "constructed": 1500, "tx_bound": 800, "lib_err": 20000, "lib_ok": 50000, "post_error_state_checked": 20000, "step_vs_run": 100000},
+    'thorough': {"program": 1078522, "allbytes": 1536, "random_tokens": 614400, "constructed": 153624, "tx_bound": 76800, "lib_err": 694087, "lib_ok": 314920, "step_vs_run": 1009008},
 }
 HOSTILE = [b"", b"\x00", b"\x80", b"\x01", b"\x81", b"\x02", b"\x7f", b"\xff", b"\xff\xff\xff\x7f", b"\xff\xff\xff\xff", b"\x00\x00\x00\x80\x00", b"\xff" * 9, b"\x01\x00\x00\x00\x00\x00", bytes(33), b"\x02" + bytes(32), bytes(71), b"\x30\x06\x02\x01\x01\x02\x01\x01\x41"]
 
